@@ -114,7 +114,9 @@ pub fn normalize(raw: &Case, opts: &NormOpts) -> Case {
     for ops in all_callers.iter() {
         for op in ops.iter() {
             if let Op::Desync { o, body, .. } | Op::Sync { o, body, .. } | Op::TrySync { o, body, .. } | Op::FutDesync { o, body, .. } | Op::FutSync { o, body, .. } | Op::After { o, body, .. } | Op::PipeIn { o, body, .. } | Op::Pipe { o, body, .. } = op {
-                if body_blocks(body) {
+                // (a job that captures handles for nested steps may also be the one that drops the last of them: Desync::drop blocks)
+                let captures = body.iter().any(|s| matches!(s, Step::NestedDesync { .. } | Step::NestedSync { .. } | Step::NestedFutDesync { .. } | Step::AwaitFutSync { .. } | Step::AwaitFutDesync { .. } | Step::Release { .. }));
+                if body_blocks(body) || captures {
                     may_block[sc(*o, objects) as usize] = true;
                 }
             }
